@@ -349,6 +349,23 @@ theorem selectMember_skip (pre post : List Member) (m : Member)
     simp only [List.cons_append, List.find?_cons, this]
     exact ih (fun y hy => hpre y (by simp [hy]))
 
+/-! ## exclude globs on full member paths (`fnmatch` flags 0: `*` also matches '/') -/
+
+theorem anySuffix_append (f : Bytes → Bool) (pre s : Bytes) (h : anySuffix f s = true) :
+    anySuffix f (pre ++ s) = true := by
+  induction pre with
+  | nil => exact h
+  | cons c t ih => simp [anySuffix, ih]
+
+/-- a pattern that starts with `*` accepts a name behind any prefix -/
+theorem globFn_star_prefix (g pre name : Bytes) (h : globFn (cStar :: g) name = true) :
+    globFn (cStar :: g) (pre ++ name) = true := by
+  cases g with
+  | nil => simp [globFn]
+  | cons c2 p =>
+    simp only [globFn, if_true] at h ⊢
+    exact anySuffix_append _ pre name h
+
 /-! ## exclusivity of the signature tests -/
 
 /-- byte constraints implied by a signature test -/
